@@ -557,6 +557,7 @@ def gen_kb_history(rng, length, full_shape=True):
 # round 4, stage 2: ascii_composer / ascii_segmentor on the synth_ascii_* schemas
 # ---------------------------------------------------------------------------
 
+SYNTH_ACEDIT = ["synth_acedit_express", "synth_acedit_fluid"]  # ascii_composer + ascii_segmentor around the punctuator chain (C05's chain)
 SYNTH_ASCII = ["synth_ascii_express", "synth_ascii_fluid"]   # stock chain order: ascii_composer, key_binder, speller, punctuator, ...
 XK_EISU = 0xff30
 
